@@ -7,7 +7,8 @@ PID = "C07"
 MODULE = "GoldilocksVerif.Props.C07"
 
 
-def make_cases(seed, lengths):
+def make_cases(seed, lengths, guard=True):
+    pre = "!^" if guard else ""   # forked child, input region ending at a PROT_NONE page: over-reads raise SIGSEGV
     rng = Rng(seed ^ 0xC07)
     cases = []
     for n in lengths:
@@ -16,9 +17,9 @@ def make_cases(seed, lengths):
         d1, d2 = sponge(inp), sponge(inp2)
         tag = "len%%8=%d%s" % (n % 8, "<=4" if n <= 4 else "")
         for fn in ("lh_seq", "lh_avx"):
-            cases.append({"line": "%s [ %s ]" % (fn, " ".join(hx(x) for x in inp)), "key": fn, "tag": tag,
+            cases.append({"line": pre + "%s [ %s ]" % (fn, " ".join(hx(x) for x in inp)), "key": fn, "tag": tag,
                           "expect": (lambda v, d=d1: (canon(v) == d, "sponge digest"))})
-        cases.append({"line": "lh_avx512 %x [ %s ]" % (n, " ".join(hx(x) for x in inp + inp2)), "key": "lh_avx512", "tag": tag,
+        cases.append({"line": pre + "lh_avx512 %x [ %s ]" % (n, " ".join(hx(x) for x in inp + inp2)), "key": "lh_avx512", "tag": tag,
                       "expect": (lambda v, a=d1, b=d2: (canon(v) == a + b, "both sponge digests"))})
     return cases
 
@@ -26,14 +27,15 @@ def make_cases(seed, lengths):
 def run(tier, seed):
     res = Result(PID, tier, seed)
     res.rule = ("every input length 0..40 and 63,64,65,127,128,129 (thorough: also 0..300 and 1000), boundary-valued elements; "
-                "exact-size input buffers with redzones (ASan build in the thorough tier) so that reads beyond the declared length "
-                "are detected; distinct = distinct (length mod 8, <=4 pass-through, variant)")
+                "every call runs in a forked child with its input region ending at a PROT_NONE guard page (ASan build with exact-size "
+                "heap blocks in the thorough tier) so that a read beyond the declared length is detected; distinct = distinct (length mod 8, <=4 pass-through, variant)")
     res.assumptions = ["hand model Model/Sponge.lean tied to the code on the executed lengths only; the theorem covers all lengths"]
     st = run_gen()
     standard_proof_phase(res, MODULE, "C07_", st, ["PosScalar", "PosAvx2", "PosAvx512"], thorough=(tier == "thorough"))
     drv, err = build_driver()
     if err:
         res.broken.append(("model driver build", err))
+        drv = NO_MODEL
     lengths = list(range(0, 41)) + [63, 64, 65, 127, 128, 129]
     if tier == "thorough":
         lengths += list(range(41, 301)) + [1000]
@@ -43,5 +45,5 @@ def run(tier, seed):
             res.broken.append(("harness build (%s)" % fl, err))
             continue
         if drv:
-            corr_campaign(res, h, drv, make_cases(seed + len(fl), lengths), fl)
+            corr_campaign(res, h, drv, make_cases(seed + len(fl), lengths, guard=(fl != "asan")), fl)
     return res.finish()
